@@ -65,10 +65,11 @@ type Link struct {
 	cond *sync.Cond
 	h    [2]*half // h[AtoB]: written by A, read by B
 	A, B *End
-	// grant mode: Write calls on the direction wait for an explicit grant (C05 writer scheduling)
+	// ticket mode: every Write call on the direction draws a ticket on entry and waits until the
+	// controller releases that ticket (C05 writer scheduling)
 	grantMode [2]bool
-	grants    [2]int
-	waiting   [2]int
+	tickets   [2]int
+	released  [2]map[int]bool
 }
 
 type End struct {
@@ -163,14 +164,11 @@ func (e *End) Write(p []byte) (int, error) {
 	h := e.wr()
 	d := e.wdir()
 	if l.grantMode[d] {
-		l.waiting[d]++
+		tk := l.tickets[d]
+		l.tickets[d]++
 		l.cond.Broadcast()
-		for l.grants[d] == 0 && !e.closed && !h.reset {
+		for !l.released[d][tk] && !e.closed && !h.reset {
 			l.cond.Wait()
-		}
-		l.waiting[d]--
-		if l.grants[d] > 0 {
-			l.grants[d]--
 		}
 	}
 	for {
@@ -424,21 +422,42 @@ func (l *Link) WriterClosed(d Dir) bool {
 	return l.h[d].wclosed
 }
 
-// grant mode
+// ticket mode
 func (l *Link) SetGrantMode(d Dir, on bool) {
 	l.mu.Lock()
 	l.grantMode[d] = on
+	if l.released[d] == nil {
+		l.released[d] = map[int]bool{}
+	}
 	l.cond.Broadcast()
 	l.mu.Unlock()
 }
-func (l *Link) Waiting(d Dir) int {
+
+// Tickets returns the number of tickets drawn so far (= Write calls entered) in direction d.
+func (l *Link) Tickets(d Dir) int {
 	l.mu.Lock()
 	defer l.mu.Unlock()
-	return l.waiting[d]
+	return l.tickets[d]
 }
-func (l *Link) Grant(d Dir, n int) {
+
+func (l *Link) UnreleasedTickets(d Dir) []int {
 	l.mu.Lock()
-	l.grants[d] += n
+	defer l.mu.Unlock()
+	var out []int
+	for t := 0; t < l.tickets[d]; t++ {
+		if !l.released[d][t] {
+			out = append(out, t)
+		}
+	}
+	return out
+}
+
+func (l *Link) ReleaseTicket(d Dir, t int) {
+	l.mu.Lock()
+	if l.released[d] == nil {
+		l.released[d] = map[int]bool{}
+	}
+	l.released[d][t] = true
 	l.cond.Broadcast()
 	l.mu.Unlock()
 }
